@@ -513,7 +513,7 @@ fn directed_prelude(ty: &str, rng: &mut Rng) -> Option<(u64, Vec<Vec<u64>>)> {
             vec![K_MERGE, rb, rc],                       // B <- C
             vec![K_MERGE, rc, rb],
         ])),
-        "mapor" | "mapmm" | "mapmv" => Some(match rng.below(6) {
+        "mapor" | "mapmm" | "mapmo" | "mapmv" => Some(match rng.below(6) {
             // a parked remove travels inside a state to a replica that already holds the update it
             // covers but never received the remove op; then again through an empty relay
             5 => (1, vec![
@@ -649,7 +649,7 @@ fn misuse_prelude(ty: &str, rng: &mut Rng) -> Option<(u64, Vec<Vec<u64>>)> {
     let shared = rng.below(2);
     let other = 1 - shared;
     match ty {
-        "orswot" | "mapmv" | "mapor" | "mapmm" => Some((1, vec![
+        "orswot" | "mapmv" | "mapor" | "mapmm" | "mapmo" => Some((1, vec![
             // A edits the shared member/key as itself; B too (distinct actors: fine)
             vec![K_EDIT, ra, shared, 0, 1, shared, 0],
             vec![K_EDIT, rb, shared, 0, 1, shared, 0],
